@@ -1,3 +1,107 @@
-"""placeholder; replaced below"""
-def install(sim): raise NotImplementedError
-def uninstall(): pass
+"""Simulated HTTP: requests.adapters.HTTPAdapter.send is the seam (it covers the emitted
+AuthorizedSession and the session api-core's OperationsRestTransport creates internally).
+
+Every HTTP request becomes an ``attempt`` event (tr="rest": verb, url, body, headers, timeout) and
+is answered by sim.server(call) with
+    {"lat", "code": <grpc code name -> HTTP status + google.rpc error body> | None,
+     "json": <reply body text>, "chunks": [sizes]}      # chunks: short reads for streamed replies
+"""
+import io
+import json
+
+import requests
+from requests.adapters import HTTPAdapter
+
+from .simclock import CLOCK
+
+_REAL_SEND = HTTPAdapter.send
+_SIM = [None]
+
+HTTP_STATUS = {
+    "CANCELLED": 499, "UNKNOWN": 500, "INVALID_ARGUMENT": 400, "DEADLINE_EXCEEDED": 504, "NOT_FOUND": 404,
+    "ALREADY_EXISTS": 409, "PERMISSION_DENIED": 403, "RESOURCE_EXHAUSTED": 429, "FAILED_PRECONDITION": 400,
+    "ABORTED": 409, "OUT_OF_RANGE": 400, "UNIMPLEMENTED": 501, "INTERNAL": 500, "UNAVAILABLE": 503,
+    "DATA_LOSS": 500, "UNAUTHENTICATED": 401,
+}
+# status codes whose HTTP mapping comes back as the SAME api-core class as the gRPC code
+ROUND_TRIP = ["CANCELLED", "NOT_FOUND", "UNIMPLEMENTED", "INTERNAL", "UNAVAILABLE"]
+
+
+class _Raw:
+    """urllib3-response stand-in that delivers the body in simulator-chosen chunk sizes."""
+
+    def __init__(self, data, sizes):
+        self.data, self.sizes = data, list(sizes or [])
+        self.pos = 0
+
+    def stream(self, chunk_size=1, decode_content=True):
+        i = 0
+        while self.pos < len(self.data):
+            n = self.sizes[i] if i < len(self.sizes) else max(1, len(self.data) - self.pos)
+            i += 1
+            chunk = self.data[self.pos:self.pos + n]
+            self.pos += n
+            yield chunk
+
+    def read(self, n=-1, decode_content=True):
+        if n is None or n < 0:
+            n = len(self.data) - self.pos
+        chunk = self.data[self.pos:self.pos + n]
+        self.pos += n
+        return chunk
+
+    def close(self): pass
+    def release_conn(self): pass
+
+
+def _send(self, request, stream=False, timeout=None, verify=True, cert=None, proxies=None):
+    sim = _SIM[0]
+    if sim is None:
+        raise RuntimeError("real network access attempted outside a simulation")
+    body = request.body
+    if body is None:
+        body = b""
+    elif isinstance(body, str):
+        body = body.encode("utf-8")
+    out = sim.attempt(request.url, "http", [body], list(request.headers.items()), timeout, "http", transport="rest",
+                      extra={"verb": request.method, "url": request.url, "stream": bool(stream)})
+    lat = float(out.get("lat", 0.0))
+    CLOCK.advance(lat)
+    resp = requests.Response()
+    resp.request = request
+    resp.url = request.url
+    resp.encoding = "utf-8"
+    resp.headers["Content-Type"] = "application/json; charset=UTF-8"
+    if out.get("code"):
+        st = HTTP_STATUS[out["code"]]
+        payload = json.dumps({"error": {"code": st, "message": "injected by simulator", "status": out["code"]}}).encode()
+        resp.status_code = st
+        resp.reason = out["code"]
+        resp._content = payload
+        resp.raw = _Raw(payload, [])
+        sim.end(out, out["code"])
+        return resp
+    payload = out.get("json", "{}")
+    if isinstance(payload, str):
+        payload = payload.encode("utf-8")
+    resp.status_code = 200
+    resp.reason = "OK"
+    if stream:
+        resp.raw = _Raw(payload, out.get("chunks") or [])
+        resp._content = False
+        resp._content_consumed = False
+    else:
+        resp._content = payload
+        resp.raw = _Raw(payload, [])
+    sim.end(out, "OK")
+    return resp
+
+
+def install(sim):
+    _SIM[0] = sim
+    HTTPAdapter.send = _send
+
+
+def uninstall():
+    _SIM[0] = None
+    HTTPAdapter.send = _REAL_SEND
